@@ -32,6 +32,7 @@ fn main() {
         Some("cexecre") => m_cexec::run_resched(),
         Some("streams") => m_cexec::run_streams(),
         Some("crun") => m_crun::run(),
+        Some("crunw") => m_crun::run_wake(),
         Some("cchan") => m_cchan::run(),
         Some("cchan0") => m_cchan::run0(),
         Some("timing") => m_timing::run(),
